@@ -51,7 +51,7 @@ static std::vector<std::pair<size_t, size_t>> line_spans(const std::string& t) {
 
 static std::vector<Mut> mutations(const Seed& s, bool thorough) {
     std::vector<Mut> m;
-    if (s.level == 3) { m.push_back({'I', 0, 0}); return m; }                       // generated SUMMARY sections: run as they are
+    if (s.level == 3 || s.level == 5) { m.push_back({'I', 0, 0}); return m; }                       // generated SUMMARY sections: run as they are
     if (s.level == 4) { auto ln = line_spans(s.text); for (int i = 1; i < (int)ln.size(); ++i) { m.push_back({'i', i, 0}); m.push_back({'i', i, 1}); } return m; }   // INCLUDE split at every line
     if (s.binary) {
         for (int o = 0; o < (int)s.text.size(); ++o) { for (int v = 0; v < 4; ++v) m.push_back({'x', o, v}); m.push_back({'t', o, 0}); }
@@ -200,6 +200,29 @@ static std::vector<Seed> make_seeds(bool thorough) {
             }
         }
     }
+    // grid property operations (level 1: full EclipseState): every operation keyword x every (target, source) pair over arrays of all
+    // storage kinds (global storage: PERM*, MULTZ, MULTZ-, MINPVV; local double; integer; defined / not yet defined / not valid in the
+    // section), at the end of the GRID section (region arrays FLUXNUM/MULTNUM/OPERNUM defined first)
+    {
+        const std::string model = slurp(root + "/data/MODEL1.DATA");
+        const size_t pe = model.find("\nEDIT\n");
+        if (pe != std::string::npos) {
+            const std::string before = model.substr(0, pe + 1) + "FLUXNUM\n 27*1 /\nMULTNUM\n 13*1 14*2 /\nOPERNUM\n 27*1 /\n", after = model.substr(pe + 1);
+            const std::vector<std::string> arr = {"PERMX", "PERMY", "PERMZ", "MULTZ", "MULTZ-", "MINPVV", "PORO", "NTG", "MULTX", "DZ", "ACTNUM", "FLUXNUM", "SATNUM", "SWATINIT"};
+            auto add = [&](const std::string& name, const std::string& kwtext) { s.push_back({"fieldop:" + name, before + kwtext + after, 5}); };
+            for (auto& a : arr) {
+                for (const char* op : {"ADD", "MULTIPLY", "EQUALS", "MINVALUE", "MAXVALUE"}) { add(std::string(op) + ":" + a, std::string(op) + "\n " + a + " 2 /\n/\n"); add(std::string(op) + "-box:" + a, std::string(op) + "\n " + a + " 2 1 2 1 2 1 1 /\n/\n"); }
+                for (const char* op : {"EQUALREG", "ADDREG", "MULTIREG"}) for (const char* rg : {"F", "M", "O"}) add(std::string(op) + ":" + a + ":" + rg, std::string(op) + "\n " + a + " 2 1 " + rg + " /\n/\n");
+                for (auto& b : arr) {
+                    add("COPY:" + a + ":" + b, "COPY\n " + a + " " + b + " /\n/\n");
+                    add("COPY-box:" + a + ":" + b, "COPY\n " + a + " " + b + " 1 2 1 2 1 1 /\n/\n");
+                    add("OPERATE:" + a + ":" + b, "OPERATE\n " + a + " 1 3 1 3 1 3 MULTX " + b + " 2.0 1.0 /\n/\n");
+                    add("COPYREG:" + a + ":" + b, "COPYREG\n " + a + " " + b + " 1 M /\n/\n");
+                    add("OPERATER:" + a + ":" + b, "OPERATER\n " + a + " 1 MULTX " + b + " 2.0 /\n/\n");
+                }
+            }
+        }
+    }
     // the model deck split over an INCLUDE file at every line, both directions (level 4)
     s.push_back({"include-split:MODEL1", slurp(root + "/data/MODEL1.DATA"), 4});
     return s;
@@ -213,7 +236,7 @@ int main(int argc, char** argv) {
     Parser parser; P = &parser;
     const char* sc = std::getenv("VERIF_SCRATCH");
     g_dir = std::string(sc ? sc : "/tmp") + "/C20." + std::to_string(getpid()); fs::create_directories(g_dir);
-    run.rule = "seeds: a complete model deck (parse + EclipseState + Schedule + SummaryConfig), the same deck with its SUMMARY section replaced by every SUMMARY keyword of the parser alone / followed by TCPU / with 1..3 list entries (SummaryConfig + merge), the same deck split over an INCLUDE file at every line in both directions (parseFile), one synthesised instance per parser deck name (parse), generated UNRST/FUNRST/SMSPEC+UNSMRY/EGRID files (EclFile/ERst/ESmry/EGrid/EclipseGrid readers); mutations, every single one at every site: token delete/duplicate/replace by each of " + std::to_string(hostile.size()) + " hostile tokens, line drop/duplicate/swap, truncation at every byte (model deck quick: every 7th), for files every byte x {0x00,0xFF,bit7,+1} and truncation at every offset; two ParseContext configurations (all errors THROW / all IGNORE); executed in the ASan+UBSan build in forked workers; oracle: normal return or std::exception - any signal, sanitizer report, foreign exception, exit() or timeout is a violation keyed by (kind, first /repo frame)";
+    run.rule = "seeds: a complete model deck (parse + EclipseState + Schedule + SummaryConfig), the same deck with its SUMMARY section replaced by every SUMMARY keyword of the parser alone / followed by TCPU / with 1..3 list entries (SummaryConfig + merge), the same deck split over an INCLUDE file at every line in both directions (parseFile), the same deck with every grid-property operation keyword x (target, source) pair over 14 arrays of all storage kinds appended to its GRID section (EclipseState), one synthesised instance per parser deck name (parse), generated UNRST/FUNRST/SMSPEC+UNSMRY/EGRID files (EclFile/ERst/ESmry/EGrid/EclipseGrid readers); mutations, every single one at every site: token delete/duplicate/replace by each of " + std::to_string(hostile.size()) + " hostile tokens, line drop/duplicate/swap, truncation at every byte (model deck quick: every 7th), for files every byte x {0x00,0xFF,bit7,+1} and truncation at every offset; two ParseContext configurations (all errors THROW / all IGNORE); executed in the ASan+UBSan build in forked workers; oracle: normal return or std::exception - any signal, sanitizer report, foreign exception, exit() or timeout is a violation keyed by (kind, first /repo frame)";
     run.assumptions = {"'any byte string' is claimed for the single-mutation neighbourhood of the seeds only", "mutants that enlarge DIMENS beyond 1e5 cells are classified resource-heavy and not constructed", "per-case time limit 20 s in the sanitizer build, re-run alone with 150 s before being called a hang; a mutant that replaces a token by 1000000 or a 99999999999-fold repeat and still exceeds it is classified resource-heavy (counted), like mutants enlarging DIMENS"};
 
     auto seeds = make_seeds(run.thorough());
@@ -255,7 +278,7 @@ int main(int argc, char** argv) {
             for (size_t i = next; i < N; ++i) {
                 sh->idx = (long)i; alarm(limit);
                 const Case& c = cases[i]; const Seed& s = seeds[c.seed];
-                try { std::string t = apply(s, c.m); sh->outcome[i] = s.binary ? run_file(t, s.ext) : s.level == 3 ? run_summary(t, c.cfg) : s.level == 4 ? run_include(s.text, c.m.a, c.m.b, c.cfg) : run_text(t, s.level, c.cfg); }
+                try { std::string t = apply(s, c.m); sh->outcome[i] = s.binary ? run_file(t, s.ext) : s.level == 3 ? run_summary(t, c.cfg) : s.level == 4 ? run_include(s.text, c.m.a, c.m.b, c.cfg) : run_text(t, s.level == 5 ? 1 : s.level, c.cfg); }
                 catch (...) { sh->foreign = 1; _exit(87); }
                 if (limit != LIM1) break;        // a retried case runs alone
             }
